@@ -40,6 +40,15 @@ pub enum UStep {
     Burst(#[serde(with = "hexvec")] Vec<Vec<u8>>),
     /// the application writes this packet (given as its canonical frame)
     Write(#[serde(with = "hex")] Vec<u8>),
+    /// the peer crashes and restarts on the same port: while it is down the application writes
+    /// `lost` (that datagram bounces and the kernel queues an ICMP error on the connection's
+    /// socket), after the restart it writes `after[..]`. A write that returns Ok must arrive.
+    Bounce {
+        #[serde(with = "hex")]
+        lost: Vec<u8>,
+        #[serde(with = "crate::scenario::hexvec")]
+        after: Vec<Vec<u8>>,
+    },
     /// the application reads while nothing is queued: the socket's (short) read timeout makes
     /// the adaptor's receive fail with a transient error; later datagrams must be unaffected
     /// (blocking adaptor only)
@@ -64,6 +73,9 @@ enum UEv {
     Wrote { res: AppRes },
     PeerGot { dgram: String },
     Idle { res: AppRes },
+    /// peer restarted; results of the write while it was down and of the writes afterwards,
+    /// each with the datagrams the new peer socket received right after it
+    Bounced { lost: AppRes, after: Vec<(AppRes, Vec<String>)> },
 }
 
 struct UdpRun {
@@ -80,6 +92,29 @@ fn drain_peer(peer: &UdpSocket, events: &mut Vec<UEv>) {
     let _ = peer.set_nonblocking(false);
 }
 
+fn rebind(addr: std::net::SocketAddr, to: std::net::SocketAddr) -> Option<UdpSocket> {
+    for _ in 0..50 {
+        if let Ok(s) = UdpSocket::bind(addr) {
+            if s.connect(to).is_ok() {
+                return Some(s);
+            }
+        }
+        std::thread::sleep(Duration::from_millis(2));
+    }
+    None
+}
+
+fn take_dgrams(peer: &UdpSocket) -> Vec<String> {
+    let mut v = Vec::new();
+    let mut buf = [0u8; 4096];
+    let _ = peer.set_nonblocking(true);
+    while let Ok((n, _)) = peer.recv_from(&mut buf) {
+        v.push(hex::enc(&buf[..n]));
+    }
+    let _ = peer.set_nonblocking(false);
+    v
+}
+
 fn frames_in(mode: SizeMode, burst: &[Vec<u8>]) -> usize {
     burst
         .iter()
@@ -89,7 +124,7 @@ fn frames_in(mode: SizeMode, burst: &[Vec<u8>]) -> usize {
 
 fn run_udp(sc: &UdpSc) -> UdpRun {
     let mut events = Vec::new();
-    let peer = match UdpSocket::bind("127.0.0.1:0") {
+    let mut peer = match UdpSocket::bind("127.0.0.1:0") {
         Ok(s) => s,
         Err(e) => return UdpRun { events, harness_error: Some(format!("bind: {}", e)) },
     };
@@ -136,6 +171,36 @@ fn run_udp(sc: &UdpSc) -> UdpRun {
                                 return UdpRun { events, harness_error: None };
                             }
                         }
+                    },
+                    UStep::Bounce { lost, after } => {
+                        // crash: the peer's socket goes away
+                        let placeholder = match UdpSocket::bind("127.0.0.1:0") {
+                            Ok(s) => s,
+                            Err(_) => return UdpRun { events, harness_error: Some("bind".into()) },
+                        };
+                        drop(std::mem::replace(&mut peer, placeholder));
+                        let to_res = |r: Result<insim::Result<()>, String>| match r {
+                            Err(p) => AppRes::Other(format!("panic: {}", p)),
+                            Ok(Ok(())) => AppRes::Done,
+                            Ok(Err(e)) => AppRes::from_err(&e),
+                        };
+                        let lost_res = match ref_decode_packet(sc.mode, lost).1 {
+                            Some(p) => to_res(guarded(|| framed.write(p))),
+                            None => AppRes::Done,
+                        };
+                        std::thread::sleep(Duration::from_millis(3));
+                        // restart on the same port
+                        match rebind(peer_addr, conn_addr) {
+                            Some(s) => peer = s,
+                            None => return UdpRun { events, harness_error: Some("rebind".into()) },
+                        }
+                        let mut results = Vec::new();
+                        for f in after {
+                            let Some(p) = ref_decode_packet(sc.mode, f).1 else { continue };
+                            let r = to_res(guarded(|| framed.write(p)));
+                            results.push((r, take_dgrams(&peer)));
+                        }
+                        events.push(UEv::Bounced { lost: lost_res, after: results });
                     },
                     UStep::IdleRead => {
                         let r = guarded(|| framed.read());
@@ -190,6 +255,31 @@ fn run_udp(sc: &UdpSc) -> UdpRun {
                                     return Ok(());
                                 }
                             }
+                        },
+                        UStep::Bounce { lost, after } => {
+                            let placeholder = UdpSocket::bind("127.0.0.1:0").map_err(|e| e.to_string())?;
+                            drop(std::mem::replace(&mut peer, placeholder));
+                            let lost_res = match ref_decode_packet(sc.mode, lost).1 {
+                                Some(p) => match tokio::time::timeout(OP_TIMEOUT, framed.write(p)).await {
+                                    Err(_) => AppRes::Other("write did not finish".into()),
+                                    Ok(Ok(())) => AppRes::Done,
+                                    Ok(Err(e)) => AppRes::from_err(&e),
+                                },
+                                None => AppRes::Done,
+                            };
+                            tokio::time::sleep(Duration::from_millis(3)).await;
+                            peer = rebind(peer_addr, conn_addr).ok_or_else(|| "rebind".to_string())?;
+                            let mut results = Vec::new();
+                            for f in after {
+                                let Some(p) = ref_decode_packet(sc.mode, f).1 else { continue };
+                                let r = match tokio::time::timeout(OP_TIMEOUT, framed.write(p)).await {
+                                    Err(_) => AppRes::Other("write did not finish".into()),
+                                    Ok(Ok(())) => AppRes::Done,
+                                    Ok(Err(e)) => AppRes::from_err(&e),
+                                };
+                                results.push((r, take_dgrams(&peer)));
+                            }
+                            events.push(UEv::Bounced { lost: lost_res, after: results });
                         },
                         UStep::IdleRead => {},
                         UStep::Write(f) => {
@@ -293,6 +383,7 @@ impl Prop for C08 {
         };
         let max_frames = *rng.pick(&[1usize, 1, 2, 4, 16, 64]);
         let idle_reads = rng.chance(1, 3);
+        let bounces = rng.chance(1, 3);
         let mut steps = Vec::new();
         let mut sent = 0usize;
         let mut notes = Vec::new();
@@ -338,6 +429,18 @@ impl Prop for C08 {
             }
             if idle_reads && imp == Imp::Blocking && rng.chance(1, 30) {
                 steps.push(UStep::IdleRead);
+            }
+            if bounces && rng.chance(1, 40) {
+                steps.push(UStep::Bounce {
+                    lost: gen::gen_out_frame(rng, mode, stats),
+                    after: (0..3).map(|_| gen::gen_out_frame(rng, mode, stats)).collect(),
+                });
+            }
+            if rng.chance(1, 60) {
+                if let Some(u) = gen::gen_unencodable_frame(rng, mode) {
+                    steps.push(UStep::Write(u));
+                    steps.push(UStep::Write(gen::gen_out_frame(rng, mode, stats)));
+                }
             }
         }
         // sentinel: anything duplicated or left over shows up before it
@@ -491,9 +594,71 @@ impl Prop for C08 {
                         break 'steps;
                     }
                 },
+                UStep::Bounce { lost: _, after } => {
+                    let Some(UEv::Bounced { lost, after: results }) = next(&mut ev_i) else { break 'steps };
+                    rep.fault("peer_crash_and_restart");
+                    h.write(lost.class().as_bytes());
+                    let exps: Vec<String> = after
+                        .iter()
+                        .filter_map(|f| ref_decode_packet(sc.mode, f).1)
+                        .filter_map(|p| ref_encode(sc.mode, &p).ok())
+                        .map(|b| hex::enc(&b))
+                        .collect();
+                    if exps.len() != results.len() {
+                        break 'steps;
+                    }
+                    for (k, ((res, got), exp)) in results.iter().zip(exps.iter()).enumerate() {
+                        match res {
+                            AppRes::Done => {
+                                if got != &vec![exp.clone()] {
+                                    rep.violations.push(v(
+                                        "udp.write_datagram",
+                                        format!("{} after the peer restarted, write #{} returned Ok but the peer received {:?} instead of exactly the datagram {} (the bounced write before it returned {:?})", tag, k + 1, got, exp, lost),
+                                    ));
+                                    break 'steps;
+                                }
+                            },
+                            AppRes::Io { .. } => {
+                                rep.probe("icmp_error_surfaced_on_write");
+                                if !got.is_empty() && got != &vec![exp.clone()] {
+                                    rep.violations.push(v("udp.write_datagram", format!("{} a failed write put {:?} on the wire", tag, got)));
+                                    break 'steps;
+                                }
+                            },
+                            other => {
+                                rep.violations.push(v("udp.write_failed", format!("{} write after the peer restarted: {:?}", tag, other)));
+                                break 'steps;
+                            },
+                        }
+                    }
+                    // the last write after a restart must get through (the queued error is spent)
+                    if let Some((res, _)) = results.last() {
+                        if results.len() >= 3 && *res != AppRes::Done {
+                            rep.violations.push(v("udp.write_failed", format!("{} the third write after the peer restarted still fails: {:?}", tag, res)));
+                            break 'steps;
+                        }
+                    }
+                },
                 UStep::Write(f) => {
                     let Some(p) = ref_decode_packet(sc.mode, f).1 else { continue };
-                    let Ok(exp) = ref_encode(sc.mode, &p) else { continue };
+                    let Ok(exp) = ref_encode(sc.mode, &p) else {
+                        // the encoder refuses this packet: the write must fail, nothing may leave
+                        match next(&mut ev_i) {
+                            Some(UEv::Wrote { res }) => {
+                                rep.probe("unencodable_packet_written");
+                                if *res == AppRes::Done {
+                                    rep.violations.push(v("udp.write_failed", format!("{} write of a packet the encoder refuses returned Ok", tag)));
+                                    break 'steps;
+                                }
+                            },
+                            _ => break 'steps,
+                        }
+                        if let Some(UEv::PeerGot { dgram }) = evs.get(ev_i) {
+                            rep.violations.push(v("udp.unsolicited_datagram", format!("{} a refused write still sent {}", tag, dgram)));
+                            break 'steps;
+                        }
+                        continue;
+                    };
                     match next(&mut ev_i) {
                         Some(UEv::Wrote { res }) => {
                             if *res != AppRes::Done {
@@ -613,7 +778,7 @@ impl Prop for C08 {
     fn components(&self) -> Value {
         json!({
             "real": ["insim::net::blocking_impl::UdpStream", "insim::net::tokio_impl::UdpStream", "both Framed", "Codec", "kernel loopback UDP sockets", "tokio I/O driver (real time)"],
-            "stub": ["peer (scripted datagram bursts incl. loss/dup/reorder, capture of received datagrams)", "application (lock-step reads and writes)"],
+            "stub": ["peer (scripted datagram bursts incl. loss/dup/reorder, crash and restart on the same port, capture of received datagrams)", "application (lock-step reads and writes)"],
         })
     }
     fn required(&self, _tier: Tier) -> Vec<&'static str> {
@@ -627,6 +792,8 @@ impl Prop for C08 {
             "udp_write",
             "datagram_loss_dup_or_reorder",
             "recv_timeout_error",
+            "peer_crash_and_restart",
+            "unencodable_packet_written",
             "blocking_runs",
             "tokio_runs",
         ]
